@@ -8,14 +8,38 @@ From Tranp Require Import Model.SymJson Proofs.SymJsonProofs.
 Theorem C14_attrs_roundtrip : forall f, rebuild (flatten f) = f.
 Proof. exact attrs_roundtrip. Qed.
 
-(* export order: a row whose key is listed at its own turn comes after every type key of its attrs (all
-   depths) that belongs to the exported module, and after its own type key if that is in the module *)
+(* export order: a row whose key is listed at its own turn comes after every type key its attrs use (all depths) that belongs
+   to the exported module, and after its own type key if that is in the module *)
 Theorem C14_export_order_partial : forall (tmod : nat -> nat) m pre r post,
-  rmod r = m -> rkey r <> rtype r ->
-  mem_nat (rkey r) (fold_left (fun o c => order_attr tmod m c o) (rattrs r) (order_keys tmod m pre)) = false ->
+  rmod r = m ->
+  mem_nat (rkey r) (order_row_pre tmod m r (order_keys tmod m pre)) = false ->
   exists a b, order_keys tmod m (pre ++ r :: post) = a ++ rkey r :: b /\
-    (forall k, In k (forest_keys (rattrs r)) -> tmod k = m -> In k a) /\ (rtmod r = m -> In (rtype r) a).
+    (forall k, In k (uforest_keys (rattrs r)) -> tmod k = m -> In k a) /\ (rtmod r = m -> In (rtype r) a).
 Proof. exact export_order_partial. Qed.
+
+(* ... and a type key comes after the keys its declaration uses (the type variables of a generic class): at an attr ... *)
+Theorem C14_declaration_first : forall (tmod : nat -> nat) m k cs d bl o,
+  Nat.eqb m (tmod k) && negb (mem_nat k (order_forest tmod m bl cs o)) && negb (mem_nat k bl) = true ->
+  exists a, order_x tmod m (XNd k cs d) bl o = a ++ [k] /\
+    (forall x, In x (uforest_keys d) -> tmod x = m -> ~ In x (k :: bl) -> In x a).
+Proof. exact declaration_first. Qed.
+
+(* ... and at the row that lists its own type *)
+Theorem C14_export_order_declaration : forall (tmod : nat -> nat) m pre r post,
+  rmod r = m -> rtmod r = m ->
+  mem_nat (rtype r) (order_forest tmod m [] (rattrs r) (order_keys tmod m pre)) = false ->
+  exists a b, order_keys tmod m (pre ++ r :: post) = a ++ rtype r :: b /\
+    forall k, In k (uforest_keys (rdecl r)) -> tmod k = m -> k <> rtype r -> In k a.
+Proof. exact export_order_declaration. Qed.
+
+(* the shape of the repaired defect: f(a: 'G[int]') listed first; G (key 2) is declared with the type variable U (key 3);
+   keys 0 = f, 1 = int (another module), 2 = G, 3 = U: U comes before G, G before f *)
+Example ex_forward_reference :
+  order_keys (fun k => match k with 1 => 9 | _ => 1 end) 1
+    [ {| rkey := 0; rmod := 1; rtype := 0; rtmod := 1; rattrs := [XNd 2 [XNd 1 [] []] [XNd 3 [] []]]; rdecl := [] |};
+      {| rkey := 3; rmod := 1; rtype := 3; rtmod := 1; rattrs := []; rdecl := [] |};
+      {| rkey := 2; rmod := 1; rtype := 2; rtmod := 1; rattrs := [XNd 3 [] []]; rdecl := [] |} ] = [3; 2; 0].
+Proof. vm_compute. reflexivity. Qed.
 
 (* non-vacuity *)
 Definition ex_forest : forest :=
@@ -28,3 +52,5 @@ Proof. vm_compute. reflexivity. Qed.
 
 Print Assumptions C14_attrs_roundtrip.
 Print Assumptions C14_export_order_partial.
+Print Assumptions C14_declaration_first.
+Print Assumptions C14_export_order_declaration.
